@@ -198,10 +198,11 @@ def run(chk: core.Check, tier: str, seed: int) -> None:
     patterns += ["[\\].]", "[\\]a-c.]+", "[.\\]]", "[\\[.]", "[\\\\.]", "[\\].][.]", "[^\\].]", "[a\\]|.]"]
     # '.' after / between / before classes and groups: its meaning does not depend on what came earlier in the pattern
     dot_patterns = ["[ab].", "[^a].", "[a].[b]", "a[b]..", "(.[a]).", "[a]|.", ".[a].", "[a][b].", "[a]+.*", "([a]|b).", "[\\]].", "[a-c]{2}.", "\\p{L}.",
-                    "[.].", "a.", "(a).", "a|[b].", "\\..", "a\\-.", "\\[.", "(\\.).", "\\.|a.", "a\\..b", "\\n.", ".\\.", "\\(.\\)"]
+                    "[.].", "a.", "(a).", "a|[b].", "a\\\\.b", "\\\\.", "\\\\[.]", "\\\\\\.", "a\\\\[b]", "\\\\.\\\\.", "[\\\\].", "\\..", "a\\-.", "\\[.", "(\\.).", "\\.|a.", "a\\..b", "\\n.", ".\\.", "\\(.\\)"]
     for dp in dot_patterns:
         directed.setdefault(dp, []).extend(["a\r", "b\n", "a\rb", "ab\r", "ba\r\r", "a\u2028", "]\r", "aa\r", ".\r", "b\r", "a-\r", "[\r", "a.\rb",
-                                            "\n\r", "(\r)", "\r."])
+                                            "\n\r", "(\r)", "\r.",
+                                            "a\\\rb", "a\\xb", "\\\r", "\\.", "\\\\\r", "a\\b", "\\x", "\\\n"])
     patterns += dot_patterns
     recs = []
     for p in patterns:
